@@ -310,6 +310,64 @@ func fanOutSeeds(b *batch, bin string, prop, tier string, seed uint64, total uin
 	wg.Wait()
 }
 
+// fanOutChunks runs `total` seeded runs as one child process per chunk of
+// `chunk` consecutive run indices (C12's race batch: the first run of every
+// process is a cold-start run).
+func fanOutChunks(b *batch, bin string, prop, tier string, seed uint64, total, chunk uint64, workers int, env []string, deadline time.Time, race bool, stall time.Duration) {
+	nChunks := (total + chunk - 1) / chunk
+	next := make(chan uint64, nChunks)
+	for c := uint64(0); c < nChunks; c++ {
+		next <- c
+	}
+	close(next)
+	var wg sync.WaitGroup
+	for w := 0; w < workers; w++ {
+		wg.Add(1)
+		go func(w int) {
+			defer wg.Done()
+			for c := range next {
+				if time.Now().After(deadline) {
+					b.mu.Lock()
+					b.extra["deadline_reached"] = true
+					b.mu.Unlock()
+					return
+				}
+				from, to := c*chunk, c*chunk+chunk
+				if to > total {
+					to = total
+				}
+				for from < to {
+					hashFile := filepath.Join(filepath.Dir(bin), fmt.Sprintf("hashes.%s.c%d.%d", prop, c, from))
+					args := []string{"run", "--prop", prop, "--tier", tier, "--seed", fmt.Sprint(seed), "--from", fmt.Sprint(from), "--to", fmt.Sprint(to),
+						"--stride", "1", "--samples", "0", "--hashes", hashFile, "--until", fmt.Sprint(deadline.UnixNano())}
+					if stall > 0 {
+						args = append(args, "--stall", stall.String())
+					}
+					res := runChild(childOpts{bin: bin, args: args, env: env, timeout: time.Until(deadline) + 45*time.Second})
+					b.absorb(res, hashFile)
+					if res.summary != nil || res.timedOut {
+						break
+					}
+					b.mu.Lock()
+					b.deaths = append(b.deaths, death{k: res.lastB, exit: res.exitCode, signal: res.signal, stderr: headTail(res.stderr, 12000), race: race})
+					if res.lastB >= int64(from) {
+						b.runs += int(uint64(res.lastB)-from) + 1
+					}
+					b.mu.Unlock()
+					if res.lastB < int64(from) {
+						b.mu.Lock()
+						b.extra["child_failed_to_start"] = tailStr(res.stderr, 2000)
+						b.mu.Unlock()
+						break
+					}
+					from = uint64(res.lastB) + 1
+				}
+			}
+		}(w)
+	}
+	wg.Wait()
+}
+
 // fanOutEnum runs the property's exhaustive enumerator in `shards` children.
 func fanOutEnum(b *batch, bin string, prop, tier string, shards int, env []string, memKB int64, deadline time.Time, blackbox bool, stall time.Duration) {
 	var wg sync.WaitGroup
